@@ -366,6 +366,7 @@ func checkC11(r *core.Run) {
 	e.run([]string{"pkg/bondmachine", "pkg/procbuilder"}, func(pk *packages.Package, fd *ast.FuncDecl) bool {
 		return fd.Name.Name == "Jsoner" || fd.Name.Name == "Dejsoner"
 	})
+	c11Alias(r, prog)
 }
 
 // c11Slots: in Dejsoner, a loop `for i, name := range mirror.F { ... result.G[i] = x ... }` whose
